@@ -1,3 +1,191 @@
 import Cppcms.Common
-/-! Line-protocol driver for C11 (stub: model not written yet). -/
-def main : IO Unit := Cppcms.lineLoop () (fun s _ => (s, "unimplemented"))
+import Cppcms.C11.Model
+/-!
+Line-protocol driver for C11 (`NumOps` instance: `F64.ops`, doubles as bit patterns).
+
+Value trees travel as blank-separated words:
+`u` undefined · `n` null · `t` / `f` · `d <16 hex digits>` · `s <hex>` ·
+`a <count> item…` · `o <count> (<hex key> value)…`
+
+* `parse <full 0|1> <hex text>`      → `ok <consumed bytes> <tree>` | `fail`
+* `load <full> <hex text> <tree>`    → `<0|1> <tree>`: `value::load` on a target holding `<tree>`
+* `write <readable 0|1> <tree>`      → `<hex text> <rt>` | `throw`; `<rt>` = what parsing the text back gives:
+                                        `exact` | `approx` (same shape, numbers differ) | `fail` | `neq` | `fail2` | `neq2`
+* `num <hex text>`                   → `ok <bits> <consumed>` | `fail`   (`is >> double`, classic locale)
+* `fmt <bits>`                       → `<hex text>`                       (`os << setprecision(P) << x`)
+* `tojson <hex>`                     → `<hex text>`                       (`to_json`)
+* `get <type> <lo> <hi> <bits>`      → `ok <int>` | `throw`               (integer extraction)
+* `J shape <tree>`                   → `1`/`0`: strings valid UTF-8, keys unique, depth ≤ json_max_depth
+-/
+open Cppcms Cppcms.C11
+
+abbrev V := Value Nat
+
+def hex16 (n : Nat) : String :=
+  String.ofList ((List.range 16).map fun i => hexChar (n / 16 ^ (15 - i) % 16))
+
+def parseHexNat (s : String) : Option Nat :=
+  s.toList.foldl (fun acc c => match acc, hexDigit c with
+    | some a, some d => some (a * 16 + d)
+    | _, _ => none) (some 0)
+
+mutual
+partial def showV : V → List String
+  | .undef => ["u"]
+  | .null => ["n"]
+  | .bool true => ["t"]
+  | .bool false => ["f"]
+  | .num x => ["d", hex16 x]
+  | .str s => ["s", toHex s]
+  | .arr items => ["a", toString items.length] ++ items.flatMap showV
+  | .obj ms => ["o", toString ms.length] ++ ms.flatMap fun (k, v) => toHex k :: showV v
+end
+
+def showValue (v : V) : String := " ".intercalate (showV v)
+
+/-- read one tree from the word list (fuel = number of words) -/
+def readV : Nat → List String → Option (V × List String)
+  | 0, _ => none
+  | fuel + 1, ws =>
+    match ws with
+    | "u" :: r => some (.undef, r)
+    | "n" :: r => some (.null, r)
+    | "t" :: r => some (.bool true, r)
+    | "f" :: r => some (.bool false, r)
+    | "d" :: h :: r => (parseHexNat h).map fun x => (.num x, r)
+    | "s" :: h :: r => (parseHex h).map fun s => (.str s, r)
+    | "a" :: n :: r =>
+      match n.toNat? with
+      | none => none
+      | some k =>
+        let rec items : Nat → List String → List V → Option (List V × List String)
+          | 0, r, acc => some (acc.reverse, r)
+          | j + 1, r, acc =>
+            match readV fuel r with
+            | some (v, r') => items j r' (v :: acc)
+            | none => none
+        (items k r []).map fun (l, r') => (.arr l, r')
+    | "o" :: n :: r =>
+      match n.toNat? with
+      | none => none
+      | some k =>
+        let rec mems : Nat → List String → List (Bytes × V) → Option (List (Bytes × V) × List String)
+          | 0, r, acc => some (acc, r)
+          | j + 1, r, acc =>
+            match r with
+            | kh :: r1 =>
+              match parseHex kh, readV fuel r1 with
+              | some key, some (v, r') => mems j r' (if hasKey key acc then acc else insertKV key v acc)
+              | _, _ => none
+            | [] => none
+        (mems k r []).map fun (l, r') => (.obj l, r')
+    | _ => none
+
+def readTree (ws : List String) : Option V :=
+  match readV (ws.length + 1) ws with
+  | some (v, []) => some v
+  | _ => none
+
+/-! judge predicates (Boolean forms of `Spec.AllStringsUtf8`, `Spec.KeysUnique`, `Spec.depth`;
+`Lemmas.lean` proves the correspondence for the ones the theorems use) -/
+mutual
+partial def shapeOk : V → Bool
+  | .str s => utf8Valid s
+  | .arr items => items.all shapeOk
+  | .obj ms => ms.all (fun kv => utf8Valid kv.1 && shapeOk kv.2) && nodup (ms.map Prod.fst)
+  | _ => true
+partial def nodup : List Bytes → Bool
+  | [] => true
+  | k :: r => !r.contains k && nodup r
+end
+
+partial def depthV : V → Nat
+  | .arr items => items.foldl (fun a v => max a (depthV v)) 0 + 1
+  | .obj ms => ms.foldl (fun a kv => max a (depthV kv.2)) 0 + 1
+  | _ => 0
+
+mutual
+partial def beqV : V → V → Bool
+  | .undef, .undef => true
+  | .null, .null => true
+  | .bool a, .bool b => a == b
+  | .num a, .num b => a == b
+  | .str a, .str b => a == b
+  | .arr a, .arr b => a.length == b.length && (a.zip b).all fun (x, y) => beqV x y
+  | .obj a, .obj b => a.length == b.length && (a.zip b).all fun (x, y) => x.1 == y.1 && beqV x.2 y.2
+  | _, _ => false
+/-- same tree up to the values of numbers -/
+partial def shapeEq : V → V → Bool
+  | .num _, .num _ => true
+  | .arr a, .arr b => a.length == b.length && (a.zip b).all fun (x, y) => shapeEq x y
+  | .obj a, .obj b => a.length == b.length && (a.zip b).all fun (x, y) => x.1 == y.1 && shapeEq x.2 y.2
+  | a, b => beqV a b
+end
+
+/-- the round trip `save` → `load` → `save` → `load` in the model -/
+def rtCode (readable : Bool) (v : V) (t : Bytes) : String :=
+  match parse F64.ops t with
+  | none => "fail"
+  | some v1 =>
+    if !shapeEq v v1 then "neq"
+    else
+      match save F64.ops readable v1 with
+      | none => "fail2"
+      | some t1 =>
+        match parse F64.ops t1 with
+        | none => "fail2"
+        | some v2 => if !beqV v1 v2 then "neq2" else if beqV v v1 then "exact" else "approx"
+
+def step (_ : Unit) (line : String) : Unit × String :=
+  let r : String :=
+    match words line with
+    | ["parse", full, h] =>
+      match parseHex h with
+      | some inp =>
+        match parseStream F64.ops (full == "1") inp with
+        | some (v, rest) => s!"ok {inp.length - rest.length} {showValue v}"
+        | none => "fail"
+      | none => "bad-op"
+    | "load" :: full :: h :: tree =>
+      match parseHex h, readTree tree with
+      | some inp, some tgt =>
+        let (ok, v) := load F64.ops tgt (full == "1") inp
+        s!"{boolStr ok} {showValue v}"
+      | _, _ => "bad-op"
+    | "write" :: mode :: tree =>
+      match readTree tree with
+      | some v =>
+        match save F64.ops (mode == "1") v with
+        | some t => toHex t ++ " " ++ rtCode (mode == "1") v t
+        | none => "throw"
+      | none => "bad-op"
+    | ["num", h] =>
+      match parseHex h with
+      | some inp =>
+        match parseNumber F64.ops inp with
+        | some (x, rest) => s!"ok {hex16 x} {inp.length - rest.length}"
+        | none => "fail"
+      | none => "bad-op"
+    | ["fmt", b] =>
+      match parseHexNat b with
+      | some x => toHex (F64.print x)
+      | none => "bad-op"
+    | ["tojson", h] =>
+      match parseHex h with
+      | some s => toHex (escapeString s)
+      | none => "bad-op"
+    | ["get", _, lo, hi, b] =>
+      match lo.toInt?, hi.toInt?, parseHexNat b with
+      | some lo, some hi, some x =>
+        match getInt lo hi x with
+        | some n => s!"ok {n}"
+        | none => "throw"
+      | _, _, _ => "bad-op"
+    | "J" :: "shape" :: tree =>
+      match readTree tree with
+      | some v => boolStr (shapeOk v && decide (depthV v ≤ Gen.jsonMaxDepth))
+      | none => "bad-op"
+    | _ => "bad-op"
+  ((), r)
+
+def main : IO Unit := lineLoop () step
